@@ -21,7 +21,6 @@ import (
 	"os"
 	"path/filepath"
 	"reflect"
-	"runtime/pprof"
 	"sort"
 	"strings"
 	"time"
@@ -322,9 +321,7 @@ func (env *c14Env) run(sp *c14Spec, cfg c14Cfg, sink *c14Sink, dst io.Writer) *c
 	}
 	done := make(chan res, 1)
 	go func() {
-		td := time.Now()
 		calls, p := env.drive(sp, cfg, dst, func(i int) { sink.call = i })
-		dbgDrive += time.Since(td)
 		done <- res{calls, p}
 	}()
 	t := time.NewTimer(env.timeout)
@@ -571,9 +568,6 @@ func (env *c14Env) layout(sp *c14Spec, cfg c14Cfg) (*c14Layout, error) {
 		}
 	}
 	if env.c.HasOracle() {
-		if os.Getenv("C14_DEBUG") != "" {
-			fmt.Fprintf(os.Stderr, "c14.layout %d %s\n", lay.id, sb.String())
-		}
 		ans := env.c.Ask(fmt.Sprintf("c14.layout %d %s", lay.id, sb.String()))
 		want := fmt.Sprintf("ok %d %d", len(lay.sites), len(ref))
 		if ans != want {
@@ -661,8 +655,6 @@ func (env *c14Env) check(sp *c14Spec, cfg c14Cfg, lay *c14Layout, f c14Fault, o 
 	return true
 }
 
-var dbgRun, dbgCheck, dbgDrive time.Duration
-
 func (env *c14Env) offsets(lay *c14Layout, stride int, all bool) []int {
 	n := len(lay.ref)
 	set := map[int]bool{}
@@ -702,7 +694,7 @@ func (env *c14Env) sweep(sp *c14Spec, cfg c14Cfg, lay *c14Layout, kind string, k
 	if os.Getenv("C14_DEBUG") != "" {
 		t0 := time.Now()
 		defer func() {
-			fmt.Fprintf(os.Stderr, "sweep %s %+v %s: %d faults, %d bytes, %.2fs run=%v check=%v drive=%v\n", sp.Name, cfg, kind, len(ks), len(lay.ref), time.Since(t0).Seconds(), dbgRun, dbgCheck, dbgDrive)
+			fmt.Fprintf(os.Stderr, "sweep %s %+v %s: %d faults, %d bytes, %.2fs\n", sp.Name, cfg, kind, len(ks), len(lay.ref), time.Since(t0).Seconds())
 		}()
 	}
 	var answers []string
@@ -724,16 +716,12 @@ func (env *c14Env) sweep(sp *c14Spec, cfg c14Cfg, lay *c14Layout, kind string, k
 	for i, k := range ks {
 		f := c14Fault{Kind: kind, K: k}
 		sink := c14NewSink(f)
-		tr := time.Now()
 		o := env.run(sp, cfg, sink, sink)
-		dbgRun += time.Since(tr)
 		mv := ""
 		if answers != nil {
 			mv = answers[i]
 		}
-		tr = time.Now()
 		env.check(sp, cfg, lay, f, o, mv)
-		dbgCheck += time.Since(tr)
 		c.Case(bucket, fmt.Sprintf("%s|%v|%s|%d", sp.Name, cfg, kind, k), true)
 	}
 }
@@ -786,11 +774,6 @@ func c14Cfgs(sp *c14Spec, quick bool) []c14Cfg {
 }
 
 func runC14(c *core.Ctx) {
-	if pf := os.Getenv("C14_PROFILE"); pf != "" {
-		f, _ := os.Create(pf)
-		pprof.StartCPUProfile(f)
-		time.AfterFunc(10*time.Second, func() { pprof.StopCPUProfile(); f.Close(); os.Exit(3) })
-	}
 	env := &c14Env{c: c, timeout: 20 * time.Second}
 	env.workdir = filepath.Join(c.OutDir, "pools")
 	_ = os.MkdirAll(env.workdir, 0o755)
@@ -978,7 +961,7 @@ func c14RowsEqual(a, b []c14Row) bool {
 }
 
 // readAll opens r and reads every row; stage tells where an error came from.
-func (env *c14Env) readAll(sp *c14Spec, r io.ReaderAt, size int64) (rows []c14Row, stage string, err error, panicked string) {
+func (env *c14Env) readAll(sp *c14Spec, r io.ReaderAt, size int64, afterOpen ...func()) (rows []c14Row, stage string, err error, panicked string) {
 	defer func() {
 		if x := recover(); x != nil {
 			panicked = fmt.Sprint(x)
@@ -987,6 +970,9 @@ func (env *c14Env) readAll(sp *c14Spec, r io.ReaderAt, size int64) (rows []c14Ro
 	f, err := parquet.OpenFile(r, size, env.openOpts(sp)...)
 	if err != nil {
 		return nil, "open", err, ""
+	}
+	for _, h := range afterOpen {
+		h()
 	}
 	rd := parquet.NewGenericReader[c14Row](f)
 	defer rd.Close()
@@ -1189,8 +1175,8 @@ func (env *c14Env) readAtFaults(sp *c14Spec, lay *c14Layout) {
 		return
 	}
 	total := dry.calls
-	judge := func(r *c14FaultyReaderAt, rp c14Replay, what string) {
-		rows, _, err, panicked := env.readAll(sp, r, int64(len(ref)))
+	judge := func(r *c14FaultyReaderAt, rp c14Replay, what string, afterOpen ...func()) {
+		rows, _, err, panicked := env.readAll(sp, r, int64(len(ref)), afterOpen...)
 		switch {
 		case panicked != "":
 			c.Violation("readat-panic", fmt.Sprintf("file %s, %s: panic %s", sp.Name, what, core.Trunc(panicked, 200)), rp)
@@ -1212,8 +1198,8 @@ func (env *c14Env) readAtFaults(sp *c14Spec, lay *c14Layout) {
 			judge(r, c14Replay{What: "readat", Spec: *sp, Call: i, Mode: mode}, fmt.Sprintf("ReadAt call %d of %d answers with %s", i, total, mode))
 		}
 	}
-	// the bytes beyond T vanish under a reader which was told the full size
-	// (file truncated while it is read): short reads with io.EOF from then on
+	// the bytes beyond T vanish after OpenFile (file truncated while it is
+	// read): short reads with io.EOF from then on
 	n := len(ref)
 	var ts []int
 	for _, b := range lay.bounds {
@@ -1226,10 +1212,11 @@ func (env *c14Env) readAtFaults(sp *c14Spec, lay *c14Layout) {
 		if t < 0 || t >= n {
 			continue
 		}
-		r := &c14FaultyReaderAt{data: ref, at: -1, limit: t}
-		judge(r, c14Replay{What: "readat", Spec: *sp, Call: -1, Mode: "truncated-under-reader", L: t}, fmt.Sprintf("only the first %d of %d bytes can be read (size passed to OpenFile: %d)", t, n, n))
+		r := &c14FaultyReaderAt{data: ref, at: -1, limit: -1}
+		judge(r, c14Replay{What: "readat", Spec: *sp, Call: -1, Mode: "truncated-after-open", L: t}, fmt.Sprintf("after OpenFile only the first %d of %d bytes can be read (short reads with io.EOF beyond)", t, n),
+			func() { r.limit = t })
 	}
-	c.Note("file %s: %d ReadAt calls for OpenFile + full read; each failed in 4 ways; %d truncation points under a reader told the full size", sp.Name, total, len(ts))
+	c.Note("file %s: %d ReadAt calls for OpenFile + full read; each failed in 4 ways; %d truncation points applied after OpenFile", sp.Name, total, len(ts))
 }
 
 // fileReadAt compares File.ReadAt (file.go:604, through the readAt wrapper)
